@@ -230,7 +230,7 @@ def gen_template(rng):
     holds a popped connection while another request waits"""
     k = rng.randrange(7)
     pb = rng.choice([1, 2])
-    t = rng.choice(["preempt_owner", "preempt_owner", "pop_window", "pushback", "owner_fails"])
+    t = rng.choice(["preempt_owner", "preempt_owner", "pop_window", "pushback", "owner_fails", "refill", "refill"])
     if t == "preempt_owner":
         ops = [["I", k, 1], ["P", 0], ["D", 0, "o"], ["P", 0],
                ["I", k, 2], ["P", 1], ["I", k, pb], ["P", 2],
@@ -248,6 +248,20 @@ def gen_template(rng):
                ["I", k, pb], ["I", k, pb]]
         ops += rng.choice([[["X", 1], ["P", 2]], [["P", 2], ["X", 1], ["P", 2]], [["C", 0], ["X", 1], ["P", 2]]])
         nreq, nconn = 3, 2
+    elif t == "refill":
+        # the idle list is at its limit, a request pops an entry and is not polled, a release refills the
+        # slot, then the unpolled request is dropped (or polled)
+        n = rng.choice([2, 2, 3])
+        rs = list(range(n))
+        ops = [["I", k, 1] for _ in rs] + [["P", r] for r in rs] + [["D", r, "o"] for r in rs] + [["P", r] for r in rs]
+        keep = rng.randrange(n)                       # this one keeps holding
+        for r in rs:
+            if r != keep:
+                ops += [["F", r], ["P", r], ["R", r]]
+        ops += [["B"], ["I", k, 1]]                   # pops an idle entry, unpolled
+        ops += [["F", keep], ["P", keep], ["R", keep], ["B"]]
+        ops += rng.choice([[["X", n]], [["P", n]], [["X", n], ["I", k, 1], ["P", n + 1]]])
+        nreq, nconn = n + 2, n
     else:  # owner_fails
         ops = [["I", k, 2], ["I", k, pb], ["I", k, 2], ["P", 0], ["P", 1], ["P", 2]]
         ops += rng.choice([[["D", 0, "c"], ["P", 0]], [["D", 0, "h"], ["P", 0]], [["X", 0], ["B"]], [["X", 0], ["D", 0, "c"], ["B"]]])
@@ -367,6 +381,7 @@ class Pool(Plugin):
         x = rng.random()
         if not timed and x > 0.85:
             ops, nreq, nconn = gen_template(rng)
+            mi = rng.choice([1, 1, 2, mi])
         elif timed and x < 0.5:
             ops, nreq, nconn = gen_aging(rng)
         elif x < (0.7 if timed else 0.3):
